@@ -176,36 +176,41 @@ def DecFrom (T : Tables) (j : Nat) (cw : List Nat) (a : Acc) : Prop :=
 theorem DecodesTo.decFrom {T : Tables} {cw : List Nat} {a : Acc} (h : DecodesTo T cw a) (j : Nat) :
     DecFrom T j cw a := fun suf _ _ => h suf
 
-/-- the shape of an EDIFACT segment: latch, complete quadruples of `chars`, then `tailcw` on which the segment
-    decoder stops after `used` codewords having appended `last` -/
-theorem edifact_segment_gen {T : Tables} {cw0 : List Nat} {a : Acc} (h : DecodesTo T cw0 a) (hp : a.pend = 0)
+theorem writeQuads_fst_length : ∀ (k : Nat) (vals : List Nat), vals.length = 4 * k →
+    (writeQuads vals).1.length = 3 * k ∧ (writeQuads vals).2 = [] := by
+  intro k
+  induction k with
+  | zero =>
+    intro vals hl
+    have : vals = [] := List.eq_nil_of_length_eq_zero (by omega)
+    subst this; exact ⟨rfl, rfl⟩
+  | succ k ih =>
+    intro vals hl
+    match vals, hl with
+    | c1 :: c2 :: c3 :: c4 :: cs, hl =>
+      obtain ⟨i1, i2⟩ := ih cs (by simp only [List.length_cons] at hl; omega)
+      simp only [writeQuads_cons4, List.length_append, i1, i2]
+      refine ⟨?_, trivial⟩
+      simp [edifactWord]; omega
+
+/-- the shape of an EDIFACT segment: latch, complete quadruples of `chars`, then `tailcw` on which (followed by
+    `suf`) the segment decoder stops after `tailcw.length` codewords having appended `last` -/
+theorem edifact_segment_core {T : Tables} {cw0 : List Nat} {a : Acc} (h : DecodesTo T cw0 a) (hp : a.pend = 0)
     (k : Nat) (chars : List Nat) (hl : chars.length = 4 * k) (hn : ∀ c ∈ chars, isNativeEDIFACT c = true)
-    (tailcw last : List Nat) (used j : Nat) (hused : used ≤ tailcw.length) (hlast : ∀ c ∈ last, c < 128)
-    (hseg : ∀ suf (b : Acc) (n : Nat), j ≤ suf.length → (∀ x ∈ suf, x < 256) →
-      edifactSeg (tailcw ++ suf) b n = (b.pushAll last, n + used))
-    (hskip : used = tailcw.length) :
-    DecFrom T j (cw0 ++ [240] ++ (writeQuads (chars.map ediVal)).1 ++ tailcw) ((a.pushAll chars).pushAll last) := by
-  intro suf hj hb
+    (tailcw last : List Nat) (hlast : ∀ c ∈ last, c < 128) (suf : List Nat)
+    (hseg : ∀ (b : Acc) (n : Nat), edifactSeg (tailcw ++ suf) b n = (b.pushAll last, n + tailcw.length)) :
+    decLoop T (cw0 ++ [240] ++ (writeQuads (chars.map ediVal)).1 ++ tailcw ++ suf) 0 false 0 {} =
+      decLoop T suf 0 false (cw0 ++ [240] ++ (writeQuads (chars.map ediVal)).1 ++ tailcw).length
+        ((a.pushAll chars).pushAll last) := by
   have e : cw0 ++ [240] ++ (writeQuads (chars.map ediVal)).1 ++ tailcw ++ suf =
       cw0 ++ (240 :: ((writeQuads (chars.map ediVal)).1 ++ (tailcw ++ suf))) := by simp
-  rw [e, h _, latch_step_edifact, edifactSeg_quads k chars hl hn, hseg suf _ _ hj hb]
+  rw [e, h _, latch_step_edifact, edifactSeg_quads k chars hl hn, hseg]
   simp only
-  have hq : (writeQuads (chars.map ediVal)).1.length = 3 * k := by
-    clear hseg h e
-    induction k generalizing chars with
-    | zero =>
-      have : chars = [] := List.eq_nil_of_length_eq_zero (by omega)
-      subst this; rfl
-    | succ k ih =>
-      match chars, hl with
-      | c1 :: c2 :: c3 :: c4 :: cs, hl =>
-        simp only [List.map_cons, writeQuads_cons4, List.length_append]
-        rw [ih cs (by simp only [List.length_cons] at hl; omega) (fun c hc => hn c (by simp [hc]))]
-        simp [edifactWord]; omega
+  have hq := (writeQuads_fst_length k (chars.map ediVal) (by simpa using hl)).1
   have e2 : (writeQuads (chars.map ediVal)).1 ++ (tailcw ++ suf) =
       ((writeQuads (chars.map ediVal)).1 ++ tailcw) ++ suf := by simp
-  have e3 : 0 + 3 * k + used = ((writeQuads (chars.map ediVal)).1 ++ tailcw).length := by
-    rw [List.length_append, hq, hskip]; omega
+  have e3 : 0 + 3 * k + tailcw.length = ((writeQuads (chars.map ediVal)).1 ++ tailcw).length := by
+    rw [List.length_append, hq]; omega
   rw [e2, e3, decLoop_skip']
   have hpend : ((a.pushAll chars).pushAll last).pend = 0 := by
     rw [pushAll_pend_lt last _ hlast, pushAll_pend_lt chars _ (fun c hc => (ediVal_facts c (hn c hc)).2.2.2.2), hp]
@@ -213,6 +218,15 @@ theorem edifact_segment_gen {T : Tables} {cw0 : List Nat} {a : Acc} (h : Decodes
   congr 1
   simp only [List.length_append, List.length_cons, List.length_nil]
   omega
+
+/-- closed by nothing: at most two codewords follow and are read in ASCII -/
+theorem edifact_segment_open {T : Tables} {cw0 : List Nat} {a : Acc} (h : DecodesTo T cw0 a) (hp : a.pend = 0)
+    (k : Nat) (chars : List Nat) (hl : chars.length = 4 * k) (hn : ∀ c ∈ chars, isNativeEDIFACT c = true) :
+    DecK T (cw0 ++ [240] ++ (writeQuads (chars.map ediVal)).1) (a.pushAll chars) 2 := by
+  intro suf hs
+  have := edifact_segment_core h hp k chars hl hn [] [] (by simp) suf (by
+    intro b n; simp only [List.nil_append, edifactSeg_short suf b n hs, Acc.pushAll, List.length_nil, Nat.add_zero])
+  simpa [Acc.pushAll] using this
 
 /-! # Part 2 — the loop of EdifactEncoder.encode -/
 
